@@ -69,6 +69,8 @@ def ks_facts(v):
     row = c["args"][1]
     if not (row[0] == "addr" and row[1][0] == "idx"):
         return None
+    if any(p_["kind"] == "store" and sym.root_of(p_["lv"]) == sym.sym(f.params[3]["n"]) for p_ in ps):
+        return None          # the mask is patched in place between the level passes: the offset is not read off one statement
     digit = row[1][2]
     fld = bits.field_of(digit)
     if fld is None:
